@@ -3,4 +3,4 @@ CONSTANTS
   Keys = {"a", "b"}
   LeafSel = "small"
   Export = FALSE
-INVARIANTS MutantKeepNull
+INVARIANTS Agree Laws
